@@ -180,6 +180,55 @@ pub fn run(ctx: &Ctx) -> Report {
     for g in ground {
         rep.merge(g);
     }
+    // ---- word boundary: a hash with at least 32 but fewer than n leading zero bits must be rejected at a declared
+    // difficulty n > 32 (a count that mis-steps through 32-bit words would accept it).  Such a nonce costs 2^32
+    // hashes: mined in the thorough tier; the quick tier re-uses the mined constants below after re-validating
+    // them with the oracle.
+    const MINED: [(&str, u8, u64); 4] = [("keccak", 40, 952432759), ("keccak", 50, 5028365117), ("blake2s", 40, 4140367947), ("blake2s", 50, 2373305377)];
+    let zero_digest = [0u8; 32];
+    let mut witnesses: Vec<(u8, u64)> = Vec::new();
+    for (k, n, nonce) in MINED {
+        if k == kname && nonce != 0 && ref_leading_zeros(kind, &zero_digest, n, nonce) >= 32 {
+            witnesses.push((n, nonce));
+        }
+    }
+    if !ctx.quick() {
+        for n in [40u8, 50] {
+            if witnesses.iter().any(|(m, _)| *m == n) {
+                continue;
+            }
+            let chunk = 1u64 << 22;
+            let mut start = 0u64;
+            let found = loop {
+                if let Some(x) = (start..start + chunk).into_par_iter().find_any(|nonce| ref_leading_zeros(kind, &zero_digest, n, *nonce) >= 32) {
+                    break Some(x);
+                }
+                start += chunk;
+                if start >= (1u64 << 35) {
+                    break None;
+                }
+            };
+            match found {
+                Some(x) => witnesses.push((n, x)),
+                None => rep.cap(&format!("no nonce with 32 leading zero bits found for n={} within 2^35 tries", n)),
+            }
+        }
+    }
+    rep.extra.insert("mined_32_zero_bit_nonces".into(), json!(witnesses.iter().map(|(n, x)| json!({"hash": kname, "n": n, "nonce": x.to_string(), "zero_bits": ref_leading_zeros(kind, &zero_digest, *n, *x)})).collect::<Vec<_>>()));
+    for (n, nonce) in &witnesses {
+        let (expect, v) = one(kind, &zero_digest, *n, *nonce);
+        let class = format!("word-boundary:{}:{}", if expect { "meets" } else { "below" }, v.short());
+        rep.eval(&class);
+        rep.nontrivial_case(&format!("{}|wordboundary|{}|{}", kname, n, nonce));
+        if v.accepted() != expect {
+            rep.violation(&format!("verify_pow:{}:{}", kname, if expect { "rejects-valid" } else { "accepts-invalid" }),
+                &format!("n={} zero digest nonce={} ({} leading zero bits) -> {}", n, nonce, ref_leading_zeros(kind, &zero_digest, *n, *nonce), v.class()),
+                json!({"kind": "pow", "digest": fhex(&Felt::ZERO), "n": n, "nonce": nonce.to_string()}));
+        }
+    }
+    if witnesses.is_empty() {
+        rep.cap("quick tier: no mined 32-zero-bit nonce embedded for this hash; the word-boundary case runs in the thorough tier");
+    }
     // the nonce is absorbed at EVERY difficulty, including the small ones validation would refuse
     for n in 0..=16u8 {
         for (di, d) in ds.iter().enumerate() {
